@@ -339,27 +339,34 @@ Example paging_fault_outside_is_clean_ex :
   /\ stores_sql_f rows4 (Some k4) 2 [] = Page [7; 8] k3.
 Proof. vm_compute. split; reflexivity. Qed.
 
-(* sqlite ReadChanges as coded has NO rows.Err() check: the same statement for it is refuted (new
-   finding, flag sqlite_changes_iteration_error_swallowed): the traversal ends after the changes
-   scanned before the fault, with the ordinary end-of-log answer and no error *)
-Theorem changes_fault_never_truncates_refuted :
-  exists (rows : list (bytes * N)) ps ty bad,
-    changes_sql_fault_hit rows bad ps [] = true
-    /\ follow_changes 4 (changes_sql_f rows (Some bad) ps ty) []
-       = ([([1], [48; 49; 65; 124]); ([], [48; 49; 65; 124])], EndMarker)
-    /\ pages_items (fst (follow_changes 4 (changes_sql_f rows None ps ty) [])) = [1; 2; 3].
-Proof. exact PagingProofs.changes_fault_never_truncates_refuted. Qed.
-Print Assumptions changes_fault_never_truncates_refuted.
+(* sqlite ReadChanges as coded has no rows.Err() check after its loop; it still never truncates:
+   under a fault the answer is an error (fault on the first row of the statement: the first step is
+   taken inside QueryContext), the genuine end of the log, or a NON-EMPTY prefix of the statement's
+   rows whose token is the key of its last row -- a correct prefix continuation, after which
+   paging_exact_changes_sqlite applies to the remaining rows *)
+Theorem paging_fault_never_truncates_changes : forall (A : Type) (rows : list (bytes * A)) (size : N)
+                                                      (from bad : bytes),
+  match changes_page_f rows size from (Some bad) with
+  | CRejected _ => fault_in_stmt bad (changes_stmt rows size from) = true
+  | CNotFound => changes_stmt rows size from = []
+  | CPage items lastk =>
+    exists got rest, got <> [] /\ changes_stmt rows size from = got ++ rest
+                     /\ items = map snd got /\ lastk = last_key got
+  end.
+Proof. exact @changes_fault_prefix_continuation. Qed.
+Print Assumptions paging_fault_never_truncates_changes.
 
-(* partial: a ReadChanges request whose statement does not reach the faulty row is unaffected *)
-Theorem changes_fault_never_truncates_partial : forall (A : Type) (rows : list (bytes * A)) (size : N)
-                                                       (from bad : bytes),
+Theorem changes_fault_outside_is_clean : forall (A : Type) (rows : list (bytes * A)) (size : N)
+                                                (from bad : bytes),
   fault_in_stmt bad (changes_stmt rows size from) = false ->
   changes_page_f rows size from (Some bad) = changes_page_f rows size from None.
 Proof. exact @changes_fault_outside. Qed.
-Print Assumptions changes_fault_never_truncates_partial.
+Print Assumptions changes_fault_outside_is_clean.
 
 Example changes_fault_ex :
   changes_sql_f crows3 (Some [48; 49; 67]) 2 [] [] = Page [1; 2] [48; 49; 66; 124]
+  /\ changes_sql_f crows3 (Some [48; 49; 66]) 2 [] [] = Page [1] [48; 49; 65; 124]
+  /\ changes_sql_f crows3 (Some [48; 49; 66]) 2 [] [48; 49; 65; 124] = Rejected EInternal
+  /\ changes_sql_f crows3 (Some [48; 49; 65]) 2 [] [] = Rejected EInternal
   /\ changes_sql_f crows3 None 2 [] [] = changes_sql crows3 2 [] [].
-Proof. vm_compute. split; reflexivity. Qed.
+Proof. vm_compute. repeat split; reflexivity. Qed.
